@@ -11,73 +11,79 @@ open PyIpmi PyIpmi.Spec.Bmc
 
 /-- `shippedLed` / `shippedPort` select the as-shipped variant of the operations that have a known defect
 (get_led_state, get_port_state); the harness probes the real code to choose. -/
-def runModelV (shippedLed shippedPort : Bool) (c : Call) (s : BmcState) : Outcome (BmcState × Result) :=
+def opOfV (shippedLed shippedPort : Bool) (c : Call) : Exchange :=
   match c with
-  | .getDeviceId => api_get_device_id s
-  | .getDeviceGuid => api_get_device_guid s
-  | .coldReset => api_cold_reset s
-  | .warmReset => api_warm_reset s
-  | .setWatchdog c => api_set_watchdog_timer c s
-  | .getWatchdog => api_get_watchdog_timer s
-  | .resetWatchdog => api_reset_watchdog_timer s
-  | .getChassisStatus => api_get_chassis_status s
-  | .chassisControl o => api_chassis_control o s
-  | .chassisControlNamed i => api_chassis_control_named i s
-  | .getBootParam a b c => api_get_system_boot_options a b c s
-  | .setBootParam a d i => api_set_system_boot_options a d i s
-  | .getBootMode => api_get_boot_mode s
-  | .getBootPersistency => api_get_boot_persistency s
-  | .getBootDevice => api_get_boot_device s
-  | .setBootOptions d e p => api_set_boot_options d e p s
-  | .getLanParam a b c d r => api_get_lan_config_param a b c d r s
-  | .setLanParam a b d => api_set_lan_config_param a b d s
-  | .getIp c => api_get_ip_address c s
-  | .setIp ip c => api_set_ip_address ip c s
-  | .getIpSource c => api_get_ip_source c s
-  | .setIpSource v c => api_set_ip_source v c s
-  | .getMac c => api_get_mac_address c s
-  | .getVlan c => api_get_vlan_id c s
-  | .setVlan v c => api_set_vlan_id v c s
-  | .setUserName u n => api_set_username u n s
-  | .getUserName u => api_get_username u s
-  | .getUserAccess u c => api_get_user_access u c s
-  | .setUserAccess a => api_set_user_access a s
-  | .setUserPassword u p => api_set_user_password u p s
-  | .enableUser u => api_enable_user u s
-  | .disableUser u => api_disable_user u s
-  | .getSensorReading n l => api_get_sensor_reading n l s
-  | .setSensorThresholds n l v => api_set_sensor_thresholds n l v s
-  | .getSensorThresholds n l => api_get_sensor_thresholds n l s
-  | .rearmSensorEvents n => api_rearm_sensor_events n s
-  | .sendPlatformEvent e => api_send_platform_event e s
-  | .setEventReceiver a l => api_set_event_receiver a l s
-  | .getEventReceiver => api_get_event_receiver s
-  | .getPicmgProperties => api_get_picmg_properties s
-  | .fruControl f o => api_fru_control f o s
-  | .fruControlNamed i f => api_fru_control_named i f s
-  | .getPowerLevel f t => api_get_power_level f t s
-  | .getFanSpeedProperties f => api_get_fan_speed_properties f s
-  | .setFanLevel f l => api_set_fan_level f l s
-  | .getFanLevel f => api_get_fan_level f s
-  | .getLedState f l => if shippedLed then api_get_led_state_shipped f l s else api_get_led_state f l s
-  | .setLedState f l c => api_set_led_state f l c s
-  | .setFruActivation f on => api_set_fru_activation f on s
-  | .setFruActivationPolicy f c => api_set_fru_activation_policy f c s
-  | .fruLockNamed i f => api_fru_lock_named i f s
-  | .setPortState i c p => api_set_port_state i c p s
-  | .getPortState c i => if shippedPort then api_get_port_state_shipped c i s else api_get_port_state c i s
-  | .getPmGlobalStatus => api_get_pm_global_status s
-  | .getPowerChannelStatus st => api_get_power_channel_status st s
-  | .sendChannelPower c e l p b => api_send_channel_power c e l p b s
-  | .sendPmHeartbeat => api_send_pm_heartbeat s
-  | .setSignalingClass i c v => api_set_signaling_class i c v s
-  | .getSignalingClass i c => api_get_signaling_class i c s
-  | .getUpgradeStatus => api_get_upgrade_status s
-  | .getTargetUpgradeCapabilities => api_get_target_upgrade_capabilities s
-  | .querySelftestResults => api_query_selftest_results s
-  | .queryRollbackStatus => api_query_rollback_status s
+  | .getDeviceId => api_get_device_id
+  | .getDeviceGuid => api_get_device_guid
+  | .coldReset => api_cold_reset
+  | .warmReset => api_warm_reset
+  | .setWatchdog c => api_set_watchdog_timer c
+  | .getWatchdog => api_get_watchdog_timer
+  | .resetWatchdog => api_reset_watchdog_timer
+  | .getChassisStatus => api_get_chassis_status
+  | .chassisControl o => api_chassis_control o
+  | .chassisControlNamed i => api_chassis_control_named i
+  | .getBootParam a b c => api_get_system_boot_options a b c
+  | .setBootParam a d i => api_set_system_boot_options a d i
+  | .getBootMode => api_get_boot_mode
+  | .getBootPersistency => api_get_boot_persistency
+  | .getBootDevice => api_get_boot_device
+  | .setBootOptions d e p => api_set_boot_options d e p
+  | .getLanParam a b c d r => api_get_lan_config_param a b c d r
+  | .setLanParam a b d => api_set_lan_config_param a b d
+  | .getIp c => api_get_ip_address c
+  | .setIp ip c => api_set_ip_address ip c
+  | .getIpSource c => api_get_ip_source c
+  | .setIpSource v c => api_set_ip_source v c
+  | .getMac c => api_get_mac_address c
+  | .getVlan c => api_get_vlan_id c
+  | .setVlan v c => api_set_vlan_id v c
+  | .setUserName u n => api_set_username u n
+  | .getUserName u => api_get_username u
+  | .getUserAccess u c => api_get_user_access u c
+  | .setUserAccess a => api_set_user_access a
+  | .setUserPassword u p => api_set_user_password u p
+  | .enableUser u => api_enable_user u
+  | .disableUser u => api_disable_user u
+  | .getSensorReading n l => api_get_sensor_reading n l
+  | .setSensorThresholds n l v => api_set_sensor_thresholds n l v
+  | .getSensorThresholds n l => api_get_sensor_thresholds n l
+  | .rearmSensorEvents n => api_rearm_sensor_events n
+  | .sendPlatformEvent e => api_send_platform_event e
+  | .setEventReceiver a l => api_set_event_receiver a l
+  | .getEventReceiver => api_get_event_receiver
+  | .getPicmgProperties => api_get_picmg_properties
+  | .fruControl f o => api_fru_control f o
+  | .fruControlNamed i f => api_fru_control_named i f
+  | .getPowerLevel f t => api_get_power_level f t
+  | .getFanSpeedProperties f => api_get_fan_speed_properties f
+  | .setFanLevel f l => api_set_fan_level f l
+  | .getFanLevel f => api_get_fan_level f
+  | .getLedState f l => if shippedLed then api_get_led_state_shipped f l else api_get_led_state f l
+  | .setLedState f l c => api_set_led_state f l c
+  | .setFruActivation f on => api_set_fru_activation f on
+  | .setFruActivationPolicy f c => api_set_fru_activation_policy f c
+  | .fruLockNamed i f => api_fru_lock_named i f
+  | .setPortState i c p => api_set_port_state i c p
+  | .getPortState c i => if shippedPort then api_get_port_state_shipped c i else api_get_port_state c i
+  | .getPmGlobalStatus => api_get_pm_global_status
+  | .getPowerChannelStatus st => api_get_power_channel_status st
+  | .sendChannelPower c e l p b => api_send_channel_power c e l p b
+  | .sendPmHeartbeat => api_send_pm_heartbeat
+  | .setSignalingClass i c v => api_set_signaling_class i c v
+  | .getSignalingClass i c => api_get_signaling_class i c
+  | .getUpgradeStatus => api_get_upgrade_status
+  | .getTargetUpgradeCapabilities => api_get_target_upgrade_capabilities
+  | .querySelftestResults => api_query_selftest_results
+  | .queryRollbackStatus => api_query_rollback_status
 
-def runModel (c : Call) (s : BmcState) : Outcome (BmcState × Result) := runModelV false false c s
+/-- the operation as modelled from the (fixed) code under test -/
+def opOf (c : Call) : Exchange := opOfV false false c
+
+/-- one API call against the BMC: BMC state afterwards, return value / exception -/
+def runModelV (shippedLed shippedPort : Bool) (c : Call) (s : BmcState) : BmcState × Outcome Result :=
+  (opOfV shippedLed shippedPort c).run s
+def runModel (c : Call) (s : BmcState) : BmcState × Outcome Result := (opOf c).run s
 
 /-- every operation of the harness' op table has a model -/
 def modelledOps : List String := ["*"]
